@@ -622,6 +622,250 @@ func addImport(f *ast.File, name, path string) {
 
 var _ = sort.Strings
 
-func computeWritten(files []*ast.File, info *types.Info) map[types.Object]bool { return nil }
+// ---- access rewrite ---------------------------------------------------------------------------------
 
-func (r *rewriter) rewriteAccess() {}
+func originVar(o types.Object) types.Object {
+	if v, ok := o.(*types.Var); ok {
+		return v.Origin()
+	}
+	return o
+}
+
+// computeWritten returns the struct fields and package-level variables that are assigned, incremented,
+// indexed on the left of an assignment or have their address taken anywhere in the package (composite
+// literals do not count: they build fresh values).
+func computeWritten(files []*ast.File, info *types.Info) map[types.Object]bool {
+	w := map[types.Object]bool{}
+	var mark func(e ast.Expr)
+	mark = func(e ast.Expr) {
+		switch x := e.(type) {
+		case *ast.ParenExpr:
+			mark(x.X)
+		case *ast.SelectorExpr:
+			if sel, ok := info.Selections[x]; ok {
+				if sel.Kind() == types.FieldVal {
+					w[originVar(sel.Obj())] = true
+				}
+				return
+			}
+			if v, ok := info.Uses[x.Sel].(*types.Var); ok && !v.IsField() {
+				w[v] = true
+			}
+		case *ast.Ident:
+			if v, ok := info.Uses[x].(*types.Var); ok && !v.IsField() && v.Parent() == v.Pkg().Scope() {
+				w[v] = true
+			}
+		case *ast.IndexExpr:
+			mark(x.X)
+		case *ast.StarExpr:
+			// *p = v: the pointee is unknown statically; fields reached through selectors are what we track
+		}
+	}
+	for _, f := range files {
+		ast.Inspect(f, func(n ast.Node) bool {
+			switch x := n.(type) {
+			case *ast.AssignStmt:
+				if x.Tok != token.DEFINE {
+					for _, l := range x.Lhs {
+						mark(l)
+					}
+				}
+			case *ast.IncDecStmt:
+				mark(x.X)
+			case *ast.UnaryExpr:
+				if x.Op == token.AND {
+					mark(x.X)
+				}
+			case *ast.RangeStmt:
+				if x.Tok == token.ASSIGN {
+					if x.Key != nil {
+						mark(x.Key)
+					}
+					if x.Value != nil {
+						mark(x.Value)
+					}
+				}
+			}
+			return true
+		})
+	}
+	return w
+}
+
+func isSyncLike(t types.Type) bool {
+	s := t.String()
+	return strings.HasPrefix(s, "sync.") || strings.Contains(s, "/mcrt.") || strings.HasPrefix(s, "chan ") || strings.HasPrefix(s, "<-chan") ||
+		strings.HasPrefix(s, "chan<-") || strings.HasPrefix(s, "*sync.") || strings.HasPrefix(s, "context.")
+}
+
+// rewriteAccess wraps reads and writes of written fields / package variables and of map objects in event calls.
+func (r *rewriter) rewriteAccess() {
+	lhs := map[ast.Expr]bool{}  // expressions that are assigned to
+	mapW := map[ast.Expr]bool{} // map operands that are written through
+	noTouch := map[ast.Expr]bool{}
+	strip := func(e ast.Expr) ast.Expr {
+		for {
+			p, ok := e.(*ast.ParenExpr)
+			if !ok {
+				return e
+			}
+			e = p.X
+		}
+	}
+	idxWrite := map[*ast.IndexExpr]bool{}
+	markL := func(e ast.Expr) {
+		e = strip(e)
+		if ix, ok := e.(*ast.IndexExpr); ok {
+			if t := r.typeOf(ix.X); t != nil {
+				if _, isMap := t.Underlying().(*types.Map); isMap {
+					mapW[strip(ix.X)] = true
+					idxWrite[ix] = true
+					return
+				}
+			}
+			return
+		}
+		lhs[e] = true
+	}
+	isMapT := func(e ast.Expr) bool {
+		t := r.typeOf(e)
+		if t == nil {
+			return false
+		}
+		_, ok := t.Underlying().(*types.Map)
+		return ok
+	}
+	idxMap := map[*ast.IndexExpr]bool{}
+	rangeMap := map[*ast.RangeStmt]bool{}
+	callMap := map[*ast.CallExpr]string{}
+	ast.Inspect(r.file, func(n ast.Node) bool {
+		switch x := n.(type) {
+		case *ast.IndexExpr:
+			if isMapT(x.X) {
+				idxMap[x] = true
+			}
+		case *ast.RangeStmt:
+			if isMapT(x.X) {
+				rangeMap[x] = true
+			}
+		}
+		return true
+	})
+	ast.Inspect(r.file, func(n ast.Node) bool {
+		switch x := n.(type) {
+		case *ast.AssignStmt:
+			for _, l := range x.Lhs {
+				if x.Tok == token.DEFINE {
+					noTouch[strip(l)] = true
+				} else {
+					markL(l)
+				}
+			}
+		case *ast.IncDecStmt:
+			markL(x.X)
+		case *ast.UnaryExpr:
+			if x.Op == token.AND {
+				lhs[strip(x.X)] = true
+			}
+		case *ast.CallExpr:
+			if id, ok := x.Fun.(*ast.Ident); ok && len(x.Args) >= 1 {
+				if _, builtin := r.info.Uses[id].(*types.Builtin); builtin && isMapT(x.Args[0]) {
+					if id.Name == "delete" {
+						mapW[strip(x.Args[0])] = true
+						callMap[x] = "delete"
+					} else if id.Name == "len" {
+						callMap[x] = "len"
+					}
+				}
+			}
+		case *ast.ValueSpec:
+			for _, nm := range x.Names {
+				noTouch[nm] = true
+			}
+		case *ast.KeyValueExpr:
+			if id, ok := x.Key.(*ast.Ident); ok {
+				noTouch[id] = true
+			}
+		}
+		return true
+	})
+	wrap := func(fn string, e ast.Expr) ast.Expr {
+		return &ast.ParenExpr{X: &ast.StarExpr{X: r.call(fn, &ast.UnaryExpr{Op: token.AND, X: e})}}
+	}
+	post := func(c *astutil.Cursor) bool {
+		switch n := c.Node().(type) {
+		case *ast.IndexExpr:
+			if idxMap[n] {
+				r.stats["access-map"]++
+				if idxWrite[n] {
+					n.X = r.call("WMap", n.X)
+				} else {
+					n.X = r.call("RMap", n.X)
+				}
+			}
+		case *ast.RangeStmt:
+			if rangeMap[n] {
+				r.stats["access-map"]++
+				n.X = r.call("RMap", n.X)
+			}
+		case *ast.CallExpr:
+			switch callMap[n] {
+			case "len":
+				n.Args[0] = r.call("RMap", n.Args[0])
+			case "delete":
+				n.Args[0] = r.call("WMap", n.Args[0])
+			}
+		case *ast.SelectorExpr:
+			if noTouch[n] {
+				return true
+			}
+			tv, ok := r.info.Types[n]
+			if !ok || !tv.Addressable() || isSyncLike(tv.Type) {
+				return true
+			}
+			var obj types.Object
+			if sel, ok := r.info.Selections[n]; ok {
+				if sel.Kind() != types.FieldVal {
+					return true
+				}
+				obj = originVar(sel.Obj())
+			} else if v, ok := r.info.Uses[n.Sel].(*types.Var); ok && !v.IsField() {
+				obj = v
+			}
+			if obj == nil || !r.written[obj] {
+				return true
+			}
+			if _, isSel := c.Parent().(*ast.SelectorExpr); isSel && c.Name() == "Sel" {
+				return true
+			}
+			r.stats["access-field"]++
+			if lhs[n] {
+				c.Replace(wrap("W", n))
+			} else {
+				c.Replace(wrap("R", n))
+			}
+		case *ast.Ident:
+			if noTouch[n] {
+				return true
+			}
+			v, ok := r.info.Uses[n].(*types.Var)
+			if !ok || v.IsField() || v.Pkg() == nil || v.Parent() != v.Pkg().Scope() || !r.written[v] {
+				return true
+			}
+			if p, isSel := c.Parent().(*ast.SelectorExpr); isSel && p.Sel == n {
+				return true
+			}
+			if tv, ok := r.info.Types[n]; ok && isSyncLike(tv.Type) {
+				return true
+			}
+			r.stats["access-var"]++
+			if lhs[n] {
+				c.Replace(wrap("W", n))
+			} else {
+				c.Replace(wrap("R", n))
+			}
+		}
+		return true
+	}
+	astutil.Apply(r.file, nil, post)
+}
